@@ -34,6 +34,12 @@ CLAIMED["C09"] = ("other",
     "Assumes one request touches one subscriber context (lock classes, not instances); sync.Map, channels, sm.Client/StateMachine, idgenerator internally synchronised; objects reachable through ue.Cdr are not tracked field-sensitively.",
     "DESIGN.md §4 C09")
 
+CLAIMED["C10"] = ("other",
+    "lockset-based atomic-allocation rule, injectivity rule over the string-concatenation tree (go/ssa), who-may-write rule on the session map",
+    "Decides three necessary conditions of uniqueness for all inputs and interleavings: the number in the reference is read inside the critical section that increments the shared counter (or is an atomic add / id-generator allocation); the reference is an injective function of that number (digits-only counter last or first, separated from free text by a constant whose adjacent character is not a digit); the session map is written only by create under the returned reference and by update/release under the request's own reference. Together with C12.R1 (Location tail is that key) these imply distinct references for live sessions; continued designation of the session is decided with C02.R1.",
+    "Assumes strconv decimal rendering is digits only for non-negative numbers; counter does not wrap; uniqueness across restarts not decided.",
+    "DESIGN.md §4 C10")
+
 # id -> reason, for properties not (yet) claimed
 NOT_APPLICABLE = {
 }
